@@ -40,7 +40,7 @@ CALLABLES = {
     "name_len": lambda s: (len(s.name), s.name),
     "const": lambda s: 0,
 }
-MUTATORS = {"add", "add_many", "remove", "replace", "sort_key", "concat", "new_coll"}
+MUTATORS = {"add", "add_many", "remove", "replace", "sort_key", "concat", "new_coll", "batch_fail"}
 MAX_STREAMS, MAX_COLLS = 6, 3
 
 
@@ -113,6 +113,7 @@ class C19(World):
             p_numpy=sw.choice([0, 0, 0.2]),
             w_stream=sw.choice([0, 1, 3]),
             w_coll=sw.choice([0, 1, 3]),
+            w_batch_fail=sw.choice([0, 0, 0.4, 1.5]),
             names=sw.choice([2, 4, len(NAMES)]),
             flip=sw.random() < 0.5,
             equal_t=sw.choice([0, 0, 0.05, 0.2]),
@@ -147,7 +148,7 @@ class C19(World):
             choices += [("new_coll", 1.5 if n_c < MAX_COLLS else 0.1)]
             if n_c and n_s:
                 w = swarm["w_coll"]
-                choices += [("add", 4 * w), ("add_many", 1.5 * w), ("remove", 1.5 * w), ("replace", 0.5 * w), ("sort_key", 2 * w), ("concat", 1 * w), ("query", 1 * w)]
+                choices += [("add", 4 * w), ("add_many", 1.5 * w), ("remove", 1.5 * w), ("replace", 0.5 * w), ("sort_key", 2 * w), ("concat", 1 * w), ("query", 1 * w), ("batch_fail", swarm.get("w_batch_fail", 0) * w)]
             op = ops.choices([c[0] for c in choices], [c[1] for c in choices])[0]
             if op == "new_stream":
                 st = new_stream()
@@ -180,6 +181,12 @@ class C19(World):
                 st = dict(op="remove", c=args.randrange(64), key={"ref": args.randrange(64)} if args.random() < 0.85 else args.choice(names))
             elif op == "replace":
                 st = dict(op="replace", c=args.randrange(64), ss=[args.randrange(64) for _ in range(args.randrange(0, 4))])
+            elif op == "batch_fail":
+                # a batch operation that fails part-way (the fault of this surface): a None among the streams, an unhashable
+                # key, or a source generator that raises after yielding `pos` valid streams
+                k = args.randrange(1, 4)
+                st = dict(op="batch_fail", c=args.randrange(64), ss=[args.randrange(64) for _ in range(k)], how=args.choice(["add_many_none", "add_many_gen", "add_many_badkey", "replace_none"]),
+                          pos=args.randrange(0, k + 1), po=args.random() < 0.85)
             elif op == "sort_key":
                 kind = args.choice(["attr", "attr", "list", "callable"])
                 if kind == "attr":
@@ -577,6 +584,73 @@ class C19(World):
                     model_add(models[j], streams[i].name, i, True)
                 cmeta[j]["stale"] = False
                 cmeta[j]["replace_clash"] = len(names_seen) != len(ss)
+            elif op == "batch_fail":
+                j = st["c"] % len(colls)
+                ss = [x % len(streams) for x in st["ss"]]
+                batch = [streams[i] for i in ss]
+                pos, how, c_ = min(st["pos"], len(ss)), st["how"], colls[j]
+                old_m = [list(e) for e in models[j]]
+                try:
+                    if how == "add_many_none":
+                        c_.add_many(batch[:pos] + [None] + batch[pos:], None, st["po"])
+                    elif how == "add_many_gen":
+                        def _src():
+                            yield from batch[:pos]
+                            raise RuntimeError("the caller's source failed")
+                        c_.add_many(_src(), None, st["po"])
+                    elif how == "add_many_badkey":
+                        pos = min(pos, len(ss) - 1)
+                        keys_ = [streams[i].name for i in ss]
+                        keys_[pos] = ["not", "hashable"]
+                        c_.add_many(batch, keys_, st["po"])
+                    else:
+                        c_.replace({f"k{n}": x for n, x in enumerate(batch[:pos] + [None] + batch[pos:])})
+                    outcome = "ok"
+                except Exception as e:
+                    outcome = "raise:" + type(e).__name__
+                fault_probe = "batch_failed_after_%s" % ("some" if pos else "none")
+                probe(fault_probe)
+                # Re-synchronise the model from what the collection says it holds, through the un-cached public queries
+                # (`key in c`, `c[key]`): what a failed batch leaves behind is not specified (nothing / a prefix / all valid
+                # elements), but it may only hold old members and batch members, an insertion may not lose an old member,
+                # and afterwards len / iteration / index must describe exactly that content (judged by check_coll below).
+                n_max = len(old_m) + len(ss) + 2
+                cand, seen_k = [], set()
+                for i in ss:
+                    base = streams[i].name
+                    for kk in [base] + [f"{base}_{n}" for n in range(1, n_max + 1)]:
+                        if isinstance(kk, str) and kk not in seen_k:
+                            seen_k.add(kk)
+                            cand.append(kk)
+                new_m = []
+                try:
+                    for key, si in old_m:
+                        if key in c_:
+                            x = c_[key]
+                            if x is streams[si]:
+                                new_m.append([key, si])
+                            elif any(x is b for b in batch) and (not st["po"] or how == "replace_none"):
+                                new_m.append([key, ss[[x is b for b in batch].index(True)]])  # documented replacement
+                            else:
+                                V("members", op + "|structural", step, f"coll {j}: after a failed batch key {key!r} holds another object", ("c", j))
+                        elif how != "replace_none":
+                            V("members", op + "|structural", step, f"coll {j}: member {key!r} lost by a failed insertion batch", ("c", j))
+                    have = {k_ for k_, _ in new_m}
+                    for kk in cand:
+                        if kk not in have and kk in c_:
+                            x = c_[kk]
+                            hit = [n for n, b in enumerate(batch) if x is b]
+                            if hit:
+                                new_m.append([kk, ss[hit[0]]])
+                                have.add(kk)
+                            else:
+                                V("members", op + "|structural", step, f"coll {j}: after a failed batch key {kk!r} holds an object that was never given to it", ("c", j))
+                except Exception as e:
+                    V("members", op + "|structural", step, f"coll {j}: key queries raise after a failed batch: {type(e).__name__}", ("c", j))
+                if new_m != old_m:
+                    cmeta[j]["stale"] = False  # any insertion marks the cache dirty
+                    probe("batch_failed_partially_applied")
+                models[j] = new_m
             elif op == "sort_key":
                 j = st["c"] % len(colls)
                 spec = st["spec"]
